@@ -130,7 +130,7 @@ def units(tier):
     for nq in range(0, 4):
         for owned in (False, True):
             us.append({"name": "A nq=%d owned=%s" % (nq, owned), "fn": lock_step, "params": {"nq": nq, "owned": owned}, "budget_s": 60, "certify": nq <= 2})
-    B = 100 if quick else 1500
+    B = 240 if quick else 1500
     T = 1 if quick else 2
 
     def add(name, **p):
